@@ -117,6 +117,102 @@ def rule_VA5(ctx, rule):
                   'accumulation for the remaining case', ctx.where(sm, cs[0]))
 
 
+def rule_equal_grids(ctx):
+    """`Model.interpolate_to_grid` returns the model itself when the grids
+    are equal -- the identity clause.  That is only right if mesh equality
+    really compares both meshes: class, shape, the three width vectors and
+    the origin of SELF with those of the OTHER mesh (a comparison of a
+    vector with itself makes meshes that differ in that direction equal, and
+    the model comes back un-averaged on the old grid)."""
+    from ..core.template import find as _find
+    me = ctx.repo.mod('emg3d/meshes.py')
+    eq = me.method('TensorMesh', '__eq__')
+    other = au.params(eq)[1]
+    for what, pats in (
+            ('h[0]', ['np.allclose(self.h[0], {o}.h[0], **__)',
+                      'np.allclose(self.h[0], {o}.h[0])',
+                      'np.array_equal(self.h[0], {o}.h[0])']),
+            ('h[1]', ['np.allclose(self.h[1], {o}.h[1], **__)',
+                      'np.allclose(self.h[1], {o}.h[1])',
+                      'np.array_equal(self.h[1], {o}.h[1])']),
+            ('h[2]', ['np.allclose(self.h[2], {o}.h[2], **__)',
+                      'np.allclose(self.h[2], {o}.h[2])',
+                      'np.array_equal(self.h[2], {o}.h[2])']),
+            ('origin', ['np.allclose(self.origin, {o}.origin, **__)',
+                        'np.allclose(self.origin, {o}.origin)',
+                        'np.array_equal(self.origin, {o}.origin)']),
+            ('shape_cells', ['np.all(self.shape_cells == {o}.shape_cells)',
+                             'self.shape_cells == {o}.shape_cells',
+                             'np.array_equal(self.shape_cells, '
+                             '{o}.shape_cells)'])):
+        got = []
+        for p_ in pats:
+            p_ = p_.format(o=other)
+            if '**__' in p_:
+                # any keyword arguments
+                for c in au.calls(eq, p_.split('(')[0]):
+                    if len(c.args) == 2 and sorted(
+                            ast.unparse(a) for a in c.args) == sorted(
+                                x.strip() for x in p_.split('(', 1)[1]
+                                .rsplit(', **', 1)[0].split(', ')):
+                        got.append(c)
+            else:
+                got += [n_ for n_, _b in _find(p_, eq)]
+        ctx.check('C15.VA1.identity', f'TensorMesh.__eq__ compares {what} '
+                  'of both meshes', bool(got),
+                  f'{what} of this mesh is not compared with {what} of the '
+                  'other mesh: meshes that differ there are "equal", and '
+                  'interpolate_to_grid returns the model unchanged on its '
+                  'old grid instead of the volume average',
+                  ctx.where(me, eq))
+    mm = ctx.repo.mod('emg3d/models.py')
+    itg = mm.method('Model', 'interpolate_to_grid')
+    ctx.check('C15.VA1.identity', 'interpolate_to_grid: shortcut on mesh '
+              'equality', any(has(p_, itg) for p_ in (
+                  f'if {au.params(itg)[1]} == self.grid:\n    return self',
+                  f'if self.grid == {au.params(itg)[1]}:\n    return self')),
+              'the identity shortcut is not taken on equality of the two '
+              'grids', ctx.where(mm, itg))
+
+
+def rule_kernel_output(ctx):
+    """The volume average is what the kernel computes, for every cell of the
+    new grid (cells outside the source grid get the nearest values inside
+    the kernel's weights): after the kernel call nothing writes INTO the
+    result (`extrapolate` belongs to the point-wise methods)."""
+    mp = ctx.repo.mod('emg3d/maps.py')
+    fn = mp.func('interpolate')
+    calls = au.calls(fn, 'interp_volume_average')
+    ctx.anchor(len(calls) == 1, 'interp_volume_average call in interpolate')
+    out = [ast.unparse(k.value) for k in calls[0].keywords
+           if k.arg == 'new_values']
+    ctx.anchor(len(out) == 1, 'new_values argument of the kernel call')
+    bad = []
+    for st in ast.walk(fn):
+        tgs = st.targets if isinstance(st, ast.Assign) else (
+            [st.target] if isinstance(st, ast.AugAssign) else [])
+        for t in tgs:
+            if isinstance(t, ast.Subscript) and ast.unparse(t.value) == \
+                    out[0]:
+                bad.append(st)
+    ctx.check('C15.VA2.callsite', 'interpolate: nothing writes into the '
+              'volume average', not bad,
+              f'`{au.stext(bad[0]) if bad else ""}` overwrites entries of '
+              'the averaged values: the result is no longer the volume '
+              'average (not the operator whose transpose brings gradients '
+              'back, values leave the range of the input, outside cells are '
+              'not the nearest values)', ctx.where(mp, bad[0] if bad else fn))
+    arm = [n for n in ast.walk(fn) if isinstance(n, ast.If) and any(
+        c is calls[0] for x in n.body for c in ast.walk(x))]
+    uses = [x for n in arm[-1:] for st in n.body for x in ast.walk(st)
+            if isinstance(x, ast.Name) and x.id == 'extrapolate']
+    ctx.check('C15.VA2.callsite', 'interpolate: volume averaging does not '
+              'depend on `extrapolate`', not uses, 'the volume branch reads '
+              '`extrapolate`: volume averaging always fills cells outside '
+              'the source grid with the nearest values',
+              ctx.where(mp, uses[0] if uses else fn))
+
+
 def run(ctx):
     ctx.explanation = (
         'Flag/guard pairing and kernel shape of the volume-average path are '
@@ -373,4 +469,6 @@ def run(ctx):
               'clamped to the grid (nearest values outside the source grid)',
               ctx.where(mp, vw))
     rule_VA5(ctx, 'C15.VA5.adjoint')
+    rule_equal_grids(ctx)
+    rule_kernel_output(ctx)
     ctx.floor('C15.VA3.kernel', 8)
